@@ -30,6 +30,20 @@ pub enum Form {
     Assembled { wrap: bool },
     /// rendered to source text and parsed by the library
     Parsed,
+    /// as `Parsed`, but left-nested binary operations are written without parentheses
+    ParsedLoose,
+}
+
+impl Form {
+    pub fn is_parsed(self) -> bool {
+        matches!(self, Form::Parsed | Form::ParsedLoose)
+    }
+    pub fn source(self, program: &crate::prog::Expr) -> String {
+        match self {
+            Form::ParsedLoose => program.render_loose(),
+            _ => program.render(),
+        }
+    }
 }
 
 impl Form {
@@ -38,6 +52,7 @@ impl Form {
             Form::Assembled { wrap: true } => "assembled_wrapped",
             Form::Assembled { wrap: false } => "assembled",
             Form::Parsed => "parsed",
+            Form::ParsedLoose => "parsed_loose",
         }
     }
     pub fn from_name(s: &str) -> Option<Form> {
@@ -45,6 +60,7 @@ impl Form {
             Form::Assembled { wrap: true },
             Form::Assembled { wrap: false },
             Form::Parsed,
+            Form::ParsedLoose,
         ]
         .into_iter()
         .find(|f| f.name() == s)
@@ -65,7 +81,7 @@ pub struct Case {
 impl Case {
     pub fn to_json(&self) -> Json {
         Json::obj()
-            .with("source", Json::s(self.program.render()))
+            .with("source", Json::s(self.form.source(&self.program)))
             .with("form", Json::s(self.form.name()))
             .with("context_kind", Json::s(self.kind.name()))
             .with(
@@ -161,8 +177,8 @@ pub enum Built {
 pub fn build(case: &Case) -> Built {
     match case.form {
         Form::Assembled { wrap } => Built::Tree(case.program.assemble(wrap), None),
-        Form::Parsed => {
-            let src = case.program.render();
+        Form::Parsed | Form::ParsedLoose => {
+            let src = case.form.source(&case.program);
             match build_operator_tree::<DefaultNumericTypes>(&src) {
                 Ok(t) => Built::Tree(t, Some(src)),
                 Err(e) => Built::ParseRejected(format!("{:?}", e)),
@@ -237,7 +253,18 @@ pub fn check_plan(
     let ref_log = r_mut.log.clone();
 
     if prop == Prop::C08 {
-        let f = mut_diff.map(|class| finding(prop, class, "mutable-vs-reference", faults, &r_mut, &o_mut));
+        let mut f = mut_diff.map(|class| finding(prop, class, "mutable-vs-reference", faults, &r_mut, &o_mut));
+        if f.is_none() {
+            // the read-only evaluator is an evaluator too: same order, same stopping rule
+            // (assignments end it with ContextNotMutable once their operands are evaluated)
+            if let Ok(r_imm) = run_ref(tree, &case.setup, kind, true, case.typed, faults, cx.delegate) {
+                let o_imm = run_real(tree, src, &case.setup, kind, Path::Imm, case.entry, case.typed, faults);
+                cx.stats.inc("evaluations_real");
+                cx.stats.inc("c08.read_only_path_checked");
+                f = diff_class(&r_imm, &o_imm, true)
+                    .map(|class| finding(prop, class, "read-only-vs-reference", faults, &r_imm, &o_imm));
+            }
+        }
         return PlanResult {
             finding: f,
             ref_log,
